@@ -87,7 +87,26 @@ func compositesOne(id int, sc compScenario) (compEvent, error) {
 				c.LogError(fmt.Sprintf("msg-%d-end", n))
 			}
 		case "append":
-			if err := c.Append(sinks[op.S-1]); err != nil {
+			// in turn: the Loggers entry point, the logr entry point with one logger, the logr entry point with a batch of two
+			// (the second member of the batch is a sink of the harness's own, outside the model)
+			var err error
+			how := (id + op.S) % 3
+			if ev.Ctor == "combined" {
+				how = 0 // a combined logger has no logger source of its own to give to a logr logger: AppendLogger is refused there
+			}
+			switch how {
+			case 0:
+				err = c.Append(sinks[op.S-1])
+			case 1:
+				err = c.AppendLogger(logs.NewPlainLogrLoggerFromLoggers(sinks[op.S-1]))
+			default:
+				extra, xerr := logs.NewPlainStringLogger()
+				if xerr != nil {
+					return ev, xerr
+				}
+				err = c.AppendLogger(logs.NewPlainLogrLoggerFromLoggers(sinks[op.S-1]), logs.NewPlainLogrLoggerFromLoggers(extra))
+			}
+			if err != nil {
 				ev.Problem = "Append: " + err.Error()
 			}
 		}
